@@ -3,7 +3,9 @@
        `higlight_tailing_spaces` is a char boundary <= len and is exactly the start of the trailing
        whitespace;  (b) `Decorator::output_line_number`: `width - digits(num)` cannot underflow for
        num <= the maximum the decorator was built for."""
+import json
 import random
+import re
 
 import z3
 
@@ -367,6 +369,58 @@ def h_every_difference(renderer):
     return h
 
 
+def h_outcome_serialize():
+    """`impl Serialize for Outcome` (what the json / yaml renderers write per outcome) against a recording serializer"""
+    import re
+    from mir_exec import Agg, Opaque, StringBuf, VecBuf, find_method, mk_int, mk_struct, new_ref, UNIT
+    from mir_models import Models, as_str, deref, none, ok, some
+
+    class SerModels(Models):
+        def __init__(self):
+            super().__init__()
+            ins = lambda pat, fn: self.table.insert(0, (re.compile("^(?:%s)$" % pat), fn))
+            ins(r"<S as (?:[a-z_:]+::)?Serializer>::serialize_map", lambda c, m, a: ok(Agg("RecordingMap", None, [a[1], VecBuf([])])))
+
+            def entry(c, m, a):
+                mp = deref(a[0])
+                mp.fields[1].items.append(StringBuf(list(as_str(a[1]).chars)))
+                return ok(UNIT)
+            ins(r"<<S as (?:[a-z_:]+::)?Serializer>::SerializeMap as (?:[a-z_:]+::)?SerializeMap>::serialize_entry::<.*>", entry)
+            ins(r"<<S as (?:[a-z_:]+::)?Serializer>::SerializeMap as (?:[a-z_:]+::)?SerializeMap>::end", lambda c, m, a: ok(deref(a[0])))
+
+    def mk(location, title, result):
+        def setup(ctx):
+            ctx.notes["case"] = (location, title, result)
+            res = Agg("Result", "Ok", [UNIT]) if result == "passed" else Agg("Result", "Err", [Agg("TestCaseError", {"timeout": "Timeout", "skipped": "Skipped"}[result], [])])
+            tc = mk_struct("TestCase", title=StringBuf([SInt(ord(c), "char") for c in title]), shell_expression=StringBuf([SInt(ord("x"), "char")]),
+                           expectations=VecBuf([]), exit_code=none(), line_number=mk_int(1, "usize"), config=Opaque("config"))
+            outcome = mk_struct("Outcome", location=some(StringBuf([SInt(ord(c), "char") for c in location])) if location else none(), output=Opaque("output"),
+                                testcase=tc, format=Agg("ParserType", "Markdown", []), escaping=Agg("Escaper", "Unicode", []), result=res)
+            return [new_ref(outcome), Agg("RecordingSerializer", None, [])]
+        return setup
+
+    def post(ctx, args, kind, value):
+        if kind != "return" or value.variant != "Ok":
+            return False
+        mp = value.fields[0]
+        declared, keys = mp.fields[0], ["".join(chr(c.v) for c in as_str(k).chars) for k in mp.fields[1].items]
+        location, title, result = ctx.notes["case"]
+        if declared.variant == "Some" and not (declared.fields[0].concrete and declared.fields[0].v == len(keys)):
+            return False          # the announced number of entries is what some serializers (serde_json for 0) act on
+        if len(set(keys)) != len(keys) or "result" not in keys:
+            return False
+        if (location != "") != ("location" in keys):
+            return False
+        return ("title" in keys) if result == "passed" else ("output" in keys and "testcase" in keys)
+    inputs = [("location=%r title=%r result=%s" % (l, t, r), mk(l, t, r)) for l in ("", "doc.md") for t in ("", "a title") for r in ("passed", "timeout", "skipped")]
+    h = e2.Harness("outcome_serialization_entries", "outcome::<impl at src/outcome.rs", inputs, post, native=None, judge=None,
+                   describe="every outcome is written as one map whose announced size equals the entries written, with a `result` entry, `location` iff set, "
+                            "`title` for a passed test and `output` + `testcase` for a failed one",
+                   bound="location unset / set × title empty / non-empty × result passed / timed out / skipped")
+    h.models_cls = SerModels
+    return h
+
+
 def h_diff_renderer(max_bytes):
     """`-r diff` on one failed test case whose diff has an unmatched expectation and one unexpected output line of arbitrary bytes"""
     from mir_exec import Agg, Opaque, Slice, Str, StringBuf, VecBuf, find_method, mk_int, mk_struct, new_ref
@@ -516,6 +570,30 @@ def run(pid, tier):
             else:
                 rep.mismatches.append("%s: solver witness (%d chars) did not reproduce natively" % (hl2.name, len(text)))
         e2.record(rep, hl2, resl)
+    # what json / yaml write per outcome
+    hs = h_outcome_serialize()
+    hs.func = [n for n in prog.funcs if re.search(r"<impl at src/outcome\.rs[^>]*>::serialize$", n)][0]
+    ress = e2.run_with_raw(prog, hs, max_witnesses=4)
+    for model, r in ress.raw_witnesses[:4]:
+        location, title, result = r.ctx.notes["case"]
+        nk, nv = NAT.call("render_structured", [location or None, title, result])
+        bad = None
+        if nk != "return":
+            bad = "the structured renderers panic: %s" % str(nv)[:100]
+        else:
+            try:
+                entries = json.loads(nv["json"]["Ok"])
+                if not (isinstance(entries, list) and len(entries) == 1 and "result" in entries[0]):
+                    bad = "json has not one entry with its result: %r" % nv["json"]["Ok"][:120]
+            except Exception as e:
+                bad = "json is not well-formed (%s): %r" % (e, str(nv.get("json"))[:120])
+        if bad:
+            rep.violation("structured-renderer:%s:%s:%s" % ("located" if location else "no-location", "titled" if title else "untitled", result),
+                          "outcome with location=%r title=%r result=%s: %s" % (location, title, result, bad),
+                          {"kind": "eval", "fn": "render_structured", "args": [location or None, title, result], "native": [nk, nv], "harness": hs.name})
+        else:
+            rep.mismatches.append("%s: solver witness %s did not reproduce natively: %s" % (hs.name, (location, title, result), str(nv)[:200]))
+    e2.record(rep, hs, ress)
     # every difference of every small diff shape is in the rendering
     for rend in ("pretty", "diff"):
         he = h_every_difference(rend)
